@@ -252,6 +252,11 @@ def body_planet_elong(case):
                         site=site, kind="elongation", elon=el, ref=ref, dev=dev,
                         sig_dev=abs(el - sig), tau=tau0, planet=name)
     labels.append("elong:%s" % ("<30" if el < 30 else "30-150" if el < 150 else ">150"))
+    if case.get("seam_conjunction"):
+        labels.append("conjunction_at_the_0/360_seam")
+        if el < 2.0:
+            labels.append("elong<2deg_at_the_seam")
+        nt = True
     if lim is not None and el > lim - 2.0:
         labels.append("elong:%s_within_2deg_of_limit" % name)
     return {"labels": labels, "nontrivial": nt,
@@ -520,11 +525,41 @@ STRATS = {"planet_dir": planet_cases, "planet_elong": planet_cases, "pluto": plu
           "minor": minor_cases}
 
 
+def seam_conjunctions():
+    """(planet, JDE) of every conjunction with the Sun that falls within 2.5 days of a March
+    equinox in -2000..4000: elongation near 0 *and* the Sun at the 0/360 seam of ecliptic
+    longitude - the two boundary classes of the elongation formula at once (about 970 windows
+    of a few days in 6000 years; random epochs never land in one).  The library's own
+    closed-form finders are only used to aim the generator; the oracle does not use them."""
+    import importlib
+    out = []
+    finders = {}
+    for name in PLANETS:
+        cls = getattr(importlib.import_module("pymeeus." + name), name)
+        finders[name] = [getattr(cls, f) for f in ("inferior_conjunction", "superior_conjunction", "conjunction")
+                         if hasattr(cls, f)]
+    for y in range(-1999, 4000):
+        teq = 2451623.8 + 365.2422 * (y - 2000)
+        for name, fs in finders.items():
+            for f in fs:
+                try:
+                    tc = f(Epoch(teq)).jde()
+                except Exception:
+                    continue
+                if abs(tc - teq) < 2.5:
+                    out.append([name, round(tc, 3)])
+    return out
+
+
 def tasks(tier, seed):
     mult = 1 if tier == "quick" else 12
     plan = {"planet_dir": (16, 450), "planet_elong": (16, 450), "pluto": (2, 1500),
             "minor": (14, 4000)}
     out = []
+    cands = seam_conjunctions()
+    if cands:
+        for sh in range(4):
+            out.append(Task("t_seam", cands=cands[sh::4], shard=sh, n=250 * mult))
     for clause, (shards, n) in plan.items():
         k = 1 if tier == "quick" else 2
         for sh in range(shards * k):
@@ -534,3 +569,11 @@ def tasks(tier, seed):
 
 def t_given(rec, clause, shard, n):
     rec.given(clause, STRATS[clause](), n, shard=shard)
+
+
+def t_seam(rec, cands, shard, n):
+    offs = st.one_of(st.floats(-2.0, 2.0), st.sampled_from([0.0, 0.25, -0.25, 0.5, -0.5, 1.0, -1.0]))
+    strat = st.builds(lambda c, d: {"planet": c[0], "year": 2000.0 + (c[1] + d - 2451545.0) / 365.25,
+                                    "seam_conjunction": True},
+                      st.sampled_from(cands), offs)
+    rec.given("planet_elong", strat, n, shard="seam%d" % shard)
